@@ -8,7 +8,8 @@ from .core import INT, REAL, BOOL, STR, ANY, REF, TUP, OPT, LIST, DICT, MAP, Spe
 
 
 class Model:
-    def __init__(self, name, fields, ghost, final, value, module, elem_hooks):
+    def __init__(self, name, fields, ghost, final, value, module, elem_hooks, ghost_defaults=None):
+        self.ghost_defaults = dict(ghost_defaults or {})
         self.name = name
         self.fields = dict(fields)
         self.ghost = dict(ghost)
@@ -33,6 +34,7 @@ class Contract:
         self.on_exit = _lst(kw.pop("on_exit", []))       # post of *every* exit route
         self.stable = _lst(kw.pop("stable", []))         # predicates preserved across own suspensions
         self.at_suspension = _lst(kw.pop("at_suspension", []))  # asserted at every own suspension
+        self.guarantee = _lst(kw.pop("guarantee", []))   # two-state clause every atomic segment satisfies (old = segment start)
         self.loop_invariants = kw.pop("loop_invariants", {})   # 'while#1' / 'for#1' -> [expr]
         self.asserts = kw.pop("asserts", {})         # ordinal -> 'usage' | 'internal'
         self.ghost_entry = _lst(kw.pop("ghost_entry", []))   # ghost statements run at entry
@@ -40,6 +42,7 @@ class Contract:
         self.pure = kw.pop("pure", False)
         self.inline = kw.pop("inline", False)        # verify here, but callers inline the body
         self.no_invariants = kw.pop("no_invariants", False)
+        self.inv_scope = kw.pop("inv_scope", None)     # None = all; else list of 'Class' / 'Class.name' this function relies on / re-establishes
         self.props = _lst(kw.pop("props", []))       # properties this contract serves
         self.clause_props = kw.pop("clause_props", {})
         self.unexpected_ok = _lst(kw.pop("unexpected_ok", []))   # exception classes allowed to escape (user errors)
@@ -89,8 +92,8 @@ class Registry:
 REG = Registry()
 
 
-def model(name, fields=None, ghost=None, final=(), value=False, module=None, elem_hooks=None):
-    REG.models[name] = Model(name, fields or {}, ghost or {}, final, value, module, elem_hooks or {})
+def model(name, fields=None, ghost=None, final=(), value=False, module=None, elem_hooks=None, ghost_defaults=None):
+    REG.models[name] = Model(name, fields or {}, ghost or {}, final, value, module, elem_hooks or {}, ghost_defaults)
 
 
 def contract(fqn, **kw):
